@@ -15,6 +15,28 @@ def showResults (op : String) : Option (List MV) → String
 
 def b? (s : String) : Option Bool := if s == "1" then some true else if s == "0" then some false else none
 
+/-- the winding decision of extrude.polygon (circle.go:157-172) recomputed from the implementation's OWN vertex positions
+    `V` and the path points `P`:  dir = (V[bl]-V[tl]) × (V[tl]-V[tr]);  flip ⇔ dir · (V[bl] - P[pathIndex]) < 0 -/
+def polygonFlagsFrom (pl sd : Nat) (closed : Bool) (V P : Array (PolyVerif.V3 Float)) : List Bool :=
+  (polygonQuads pl sd closed).map fun q =>
+    let tr := q.2.1 + q.2.2; let br := q.1 + q.2.2; let tl := tr + 1; let bl := br + 1
+    match V[bl]?, V[tl]?, V[tr]?, P[q.1 / (sd + 1)]? with
+    | some vbl, some vtl, some vtr, some pp =>
+      let dir := (vbl.Sub vtl).Cross (vtl.Sub vtr)
+      decide (dir.Dot (vbl.Sub pp) < 0)
+    | _, _, _, _ => false
+
+/-- `c02.holds.polygon_full pl sides closed path… mesh`: vertex count = polygonVerts, and the index list is EXACTLY the Lean
+    generator with the winding flags recomputed from the output's positions (nothing is read off the index list) -/
+def polygonFull (args : List String) : Option Bool := do
+  let (pl, ts) ← pNat args; let (sd, ts) ← pNat ts; let (cl, ts) ← pNat ts
+  let (path, ts) ← pMany pV3 pl ts
+  let (m, _) ← pMesh ts
+  let V := ((m.attr? ⟨3, "Position"⟩).getD []).filterMap PolyVerif.Mesh.v3?
+  let flags := polygonFlagsFrom pl sd (cl != 0) V.toArray path.toArray
+  pure (V.length == polygonVerts pl sd && m.attrLen == polygonVerts pl sd &&
+        polygonTris pl sd (cl != 0) flags == m.indices)
+
 /-- one request -> one answer line; `none` = unknown op / malformed -/
 def handle (op : String) (args : List String) : Option String :=
   if op == "c02.holds.wf" then
@@ -36,6 +58,13 @@ def handle (op : String) (args : List String) : Option String :=
     | [] => some "false"
   else if op == "c02.corpus.slice_non_triangle" then
     some "rejected"   -- SliceByPlane accepts triangle meshes only (defect fixed in /repo dbd042b; kept as corpus)
+  else if op == "c02.holds.polygon_full" then
+    some (boolStr ((polygonFull args).getD false))
+  else if op == "c02.gen.extrude_polygon_accepts" then
+    -- extrude.polygon panics for fewer than 2 path points or fewer than 3 sides, accepts everything else
+    match args.mapM String.toNat? with
+    | some [pl, sd] => some (if pl < 2 ∨ sd < 3 then "rejected" else "accepted")
+    | _ => none
   else if op == "c02.holds.polygon_idx" then
     -- args: pathLen sides closed verts n idx… : the implementation's extrude.polygon output is the Lean
     -- generator for the winding flags read off the output itself (predicate of theorem extrudePolygon_wf)
